@@ -303,6 +303,16 @@ func RunCheck(opts CheckOpts) *CheckReport {
 			defer func() { <-sem }()
 			t := time.Now()
 			ans := Solve(o.Query, o.Name, SolverCfg{Timeout: opts.Timeout, Seed: opts.Seed, WorkDir: work, All: opts.Tier == "thorough"})
+			if o.Expect == "unsat" && ans.Result == "sat" && len(o.Refine) > 0 {
+				// counterexample refinement: re-solve with the exact facts that were abstracted for the proof
+				q2 := *o.Query
+				q2.Asserts = append(append([]*Term{}, o.Query.Asserts...), o.Refine...)
+				a2 := Solve(&q2, o.Name+".refined", SolverCfg{Timeout: opts.Timeout, Seed: opts.Seed, WorkDir: work})
+				if a2.Result == "unsat" || a2.Result == "sat" {
+					a2.TimeS += ans.TimeS
+					ans = a2
+				}
+			}
 			results[i] = &OblResult{O: o, Ans: ans, OK: ans.Result == o.Expect, Elapsed: time.Since(t).Seconds()}
 		}(i, o)
 	}
